@@ -284,6 +284,11 @@ CHECKS = {
             C('errors', 'TestErrorsReal', 'TraceErrors', trivial_len=3),
             C('core', 'TestCore', 'TraceCore', n={'quick': 60, 'thorough': 800}),
             C('req', 'TestReq', 'TraceReq', n={'quick': 120, 'thorough': 1000}),
+            # an operation that failed with a timeout leaves the context usable: the next Recv waits again, the next Send goes out
+            # (deadline mixes of the context patterns; round-8 change C12-m13)
+            C('rep', 'TestRep', 'TraceRep', n={'quick': 15, 'thorough': 300}, env={'VERIF_MIX': 'deadline'}),
+            C('respondent', 'TestRespondent', 'TraceRespondent', n={'quick': 15, 'thorough': 300}, env={'VERIF_MIX': 'deadline'}),
+            C('surveyor', 'TestSurveyor', 'TraceSurveyor', n={'quick': 15, 'thorough': 300}, env={'VERIF_MIX': 'deadline'}),
         ],
         'rule': 'static: one case per function with lock activity (every CFG path explored by TLC); dynamic: one trace per error scenario '
                 '(TLS configuration, address in use, refused dial, handshake loss) with a follow-up call after every outcome, plus the core scenarios '
@@ -295,6 +300,7 @@ CHECKS = {
         'level': 'model_checking',
         'jobs': [
             C('req', 'TestReq', 'TraceReq', n={'quick': 10, 'thorough': 200}),   # retransmissions carry the bytes that were sent (byte-slice API, reused buffers)
+            C('rep', 'TestRep', 'TraceRep', n={'quick': 20, 'thorough': 300}),   # a reply carries the routing header of its own request, whatever was received in between (round-8 change C01-m13)
             T('MC_Wire', 'Wire.cfg', workers=4), T('MC_Link', 'Link.cfg', workers=4),
             C('link', 'TestLinkReal', 'TraceLink', trivial_len=4),
             C('wire', 'TestWire', 'TraceWire', n={'quick': 60, 'thorough': 800}, trivial_len=3),
